@@ -10,7 +10,7 @@ SetOf(s) == {s[i] : i \in 1..Len(s)}
 TReset == /\ Is("Reset")
           /\ prefix' = E.prefix /\ allowed' = SetOf(E.allowed)
           /\ typ' = E.types /\ H' = SetOf(E.H)
-          /\ phase' = "cfg" /\ served' = "none" /\ l' = l + 1 /\ scn' = [refuse |-> SetOf(E.refuse)]
+          /\ phase' = "cfg" /\ served' = "none" /\ l' = l + 1 /\ scn' = [refuse |-> SetOf(E.refuse), strat |-> E.strat]
 TSend == Is("ClientSend") /\ Send /\ Consume
 TBackendRecv == Is("BackendRecv") /\ Dispatch(E.e) /\ Consume
 TClientDone == Is("ClientDone") /\ Answer(E.st) /\ Consume
